@@ -353,8 +353,21 @@ impl FixtureDatabase {
         // Remove from ast_cache
         self.ast_cache.remove(&canonical);
 
-        // Remove from file_cache
-        self.file_cache.remove(&canonical);
+        // Remove from file_cache. While a workspace scan is running the entry is its record
+        // that the file has been analysed (the import scan builds its work list from the
+        // cached files): put the on-disk text there instead and let eviction drop it later.
+        let scanning = self
+            .scans_in_progress
+            .load(std::sync::atomic::Ordering::SeqCst)
+            > 0;
+        match std::fs::read_to_string(&canonical) {
+            Ok(disk_content) if scanning => {
+                self.file_cache.insert(canonical.clone(), Arc::new(disk_content));
+            }
+            _ => {
+                self.file_cache.remove(&canonical);
+            }
+        }
 
         // Remove from available_fixtures_cache (this file's cached available fixtures)
         self.available_fixtures_cache.remove(&canonical);
